@@ -4,6 +4,7 @@ import Driver.C09
 import Driver.Frame
 import Driver.Seg
 import Driver.Conv
+import Driver.Cmp
 /-! Line-protocol driver: one operation per input line, one canonical answer per output line. -/
 
 structure St where
@@ -11,6 +12,7 @@ structure St where
   inf : Cql.Inflight.S := Cql.Inflight.init 0 0
   z : Driver.Frame.Z := {}
   zs : Driver.Seg.Z := {}
+  zb : Driver.Cmp.ZB := {}
 
 def step (st : St) (line : String) : St × String :=
   match (line.trimAscii.toString.splitOn " ").filter (· ≠ "") with
@@ -19,6 +21,8 @@ def step (st : St) (line : String) : St × String :=
   | "crc" :: args => let (z, o) := Driver.Seg.handle st.zs ("crc" :: args); ({ st with zs := z }, o)
   | "zs" :: args => let (z, o) := Driver.Seg.handle st.zs ("zs" :: args); ({ st with zs := z }, o)
   | "seg" :: args => let (z, o) := Driver.Seg.handle st.zs ("seg" :: args); ({ st with zs := z }, o)
+  | "zb" :: args => let (z, o) := Driver.Cmp.handle st.zb ("zb" :: args); ({ st with zb := z }, o)
+  | "cmp" :: args => let (z, o) := Driver.Cmp.handle st.zb ("cmp" :: args); ({ st with zb := z }, o)
   | "conv" :: args => (st, Driver.Conv.handle args)
   | "prim" :: args => let (z, o) := Driver.Frame.handle st.z ("prim" :: args); ({ st with z := z }, o)
   | "z" :: args => let (z, o) := Driver.Frame.handle st.z ("z" :: args); ({ st with z := z }, o)
